@@ -4,11 +4,15 @@ open Never Never.Vm Never.Ver
 namespace VerDrv
 /-- usage: nmdrv verify <dump>...  — one line per module: `ok …summary…` or `FAIL <reason>` -/
 def main (args : List String) : IO UInt32 := do
-  for f in args do
+  let heights := args.head? == some "--heights"
+  for f in (if heights then args.drop 1 else args) do
     let lines := (← IO.FS.lines f).toList
     let md := VmDrv.parseDump lines 0 []
-    match verify md with
-    | .ok s => IO.println s!"ok instrs={s.instrs} functions={s.functions} calls={s.calls} tail={s.tailCalls} jumps={s.jumps} handlers={s.handlers} maxh={s.maxHeight} unreached={s.unreached}"
+    match verifyH md with
+    | .ok (s, hm) =>
+      IO.println s!"ok instrs={s.instrs} functions={s.functions} calls={s.calls} tail={s.tailCalls} jumps={s.jumps} handlers={s.handlers} maxh={s.maxHeight} unreached={s.unreached}"
+      if heights then
+        IO.println ("H " ++ " ".intercalate ((heightsOf md hm).map fun (a, h, np) => s!"{a}:{h}:{np}"))
     | .error e => IO.println s!"FAIL {e}"
   return 0
 end VerDrv
